@@ -47,6 +47,7 @@ def mk_world(r, hs_idx):
         "sym_offset": r.choice([0, 1, 17, 1000, 54321]),
         "sym_align": r.choice([0, 0, 3, 8, 15, 25, 40, 70]),
         "sym_align_u": r.random() if r.random() < 0.5 else None,
+        "noise": r.random() < 0.4,
         "prefix": r.choice(worlds.PREFIX_KINDS),
         "n_prefix": r.choice([1, 2, 3]),
         "seed": r.getrandbits(30),
